@@ -14,6 +14,14 @@ Reads, with regular expressions only (no C parser):
   * the guard of `_trait_set_default_value`, the tuple shapes it checks, the
     `case` labels of `default_value_for` and the tuple subscripts they use;
   * the `case` labels of `validate_trait_complex`;
+  * reference ownership facts: what every `PyTuple_SET_ITEM` / `PyList_SET_ITEM`
+    stores (new reference or borrowed), the first statement of every
+    `tp_dealloc`, the list `call_notifiers` dispatches from, every variable
+    handed to a reference-STEALING argument (`PyException_SetCause`,
+    `PyTuple_SET_ITEM`, `PyList_SET_ITEM`, `PyErr_Restore`) with the number of
+    releases of it that can follow in the function, every `Py_(X)DECREF`
+    applied directly to a struct field with whether the field is stored again
+    afterwards, and the field copies / INCREFs of `trait_clone`;
   * all `#define TRAIT_* / HASTRAITS_* / *_DEFAULT_VALUE / MAXIMUM_*` constants.
 
 Emits Generated/CTables.lean (pure data).  Fails closed: any shape it does not
@@ -682,6 +690,48 @@ def read_trait_clone(src, funcs):
     return owned, copies
 
 
+def read_field_stores(src, funcs, fields):
+    """Every store into one of `fields` (the reference-holding fields `trait_clone` copies) through a variable
+    named `trait`: (function, field, discipline).  `saved`: a local was assigned from `trait->F` before the store and
+    that local is released (`Py_DECREF` / `Py_XDECREF`) after it; `set_value`: the address of the field is handed to
+    `set_value` (INCREF new, store, XDECREF old); `UNRELEASED`: neither - the old reference is overwritten.  A
+    `&trait->F` argument of `PyArg_ParseTuple` counts as a store at that place."""
+    rows = []
+    alt = "|".join(fields)
+    sites = []
+    for m in re.finditer(r"\btrait\s*->\s*(%s)\s*=(?!=)" % alt, src):
+        sites.append((m.start(), m.group(1), None))
+    for m in re.finditer(r"&\s*trait\s*->\s*(%s)\b" % alt, src):
+        # the call this argument belongs to
+        i, depth = m.start(), 0
+        while i > 0:
+            if src[i] == ")":
+                depth += 1
+            elif src[i] == "(":
+                if depth == 0:
+                    break
+                depth -= 1
+            i -= 1
+        callee = re.search(r"(\w+)\s*$", src[:i])
+        sites.append((m.start(), m.group(1), callee.group(1) if callee else "?"))
+    for pos, field, callee in sorted(sites):
+        fname, fa, fb = enclosing(funcs, pos)
+        if callee == "set_value":
+            rows.append((fname, field, "set_value"))
+            continue
+        if callee not in (None, "PyArg_ParseTuple"):
+            raise Shape("%s: address of trait->%s handed to %s" % (fname, field, callee))
+        how = "UNRELEASED"
+        for ml in re.finditer(r"\b(\w+)\s*=\s*trait\s*->\s*%s\s*;" % field, src[fa:pos]):
+            local = ml.group(1)
+            if re.search(r"\bPy_X?DECREF\s*\(\s*%s\s*\)" % re.escape(local), src[pos:fb]):
+                how = "saved"
+        rows.append((fname, field, how))
+    if not any(r[0] == "trait_clone" for r in rows):
+        raise Shape("no field store found in trait_clone")
+    return rows
+
+
 def read_complex_cases(src, funcs, consts):
     for n, a, b in funcs:
         if n == "validate_trait_complex":
@@ -729,6 +779,7 @@ def emit(traits_dir):
     steals = read_steals(src, funcs)
     releases = read_field_releases(src, funcs)
     owned_fields, clone_copies = read_trait_clone(src, funcs)
+    field_stores = read_field_stores(src, funcs, [f for f, inc in clone_copies if inc])
 
     L = ["/- GENERATED by harness/translate/ctables.py from traits/ctraits.c of the working tree - do not edit. -/",
          "namespace TraitsVerif.Generated.CTables", ""]
@@ -828,6 +879,13 @@ def emit(traits_dir):
     L.append("def traitObjectFields : List String := %s" % lean_strs(owned_fields))
     L.append("def traitCloneCopies : List (String × Bool) := [%s]" % ", ".join(
         "(%s, %s)" % (q(f), "true" if i else "false") for f, i in clone_copies))
+    L.append("/-- Every store into one of those copied reference fields through `trait->F = …` (or `&trait->F` given to")
+    L.append("`PyArg_ParseTuple` / `set_value`): (function, field, discipline).  `saved`: the old content was put into a")
+    L.append("local before the store and that local is released after it; `set_value`: done by `set_value` (INCREF new,")
+    L.append("store, XDECREF old); `UNRELEASED`: the old reference is overwritten and never released. -/")
+    L.append("def traitFieldStores : List (String × String × String) := [")
+    L.append(",\n".join("  (%s, %s, %s)" % (q(a), q(b), q(c)) for a, b, c in field_stores))
+    L.append("]")
     L.append("")
     L.append("/-! `#define` constants. -/")
     L.append("def constants : List (String × Nat) := [")
